@@ -61,9 +61,9 @@ def _arg_domain(method, name, wire_type, wide=False):
     if wire_type == 'longlong':
         return list(A.LONGLONG) + (list(A.LONGLONG_NEG) if wide else [])
     if wire_type == 'shortstr':
-        return list(A.SHORTSTR)
+        return list(A.SHORTSTR) + (list(A.LOOKALIKES) if wide else [])
     if wire_type == 'longstr':
-        return list(A.LONGSTR)
+        return list(A.LONGSTR) + (list(A.LOOKALIKES) if wide else [])
     if wire_type == 'table':
         return list(A.TABLES)
     if wire_type == 'timestamp':
@@ -374,7 +374,7 @@ def header_tasks(tier):
     out += [('dense-props',)]
     out += [('alts', i) for i in range(NSET)]
     out += [('pairs', i) for i in range(NSET)]
-    out += [('unset',), ('sizes',)]
+    out += [('unset',), ('sizes',), ('lookalikes',)]
     out += [('dense-sizes', lo) for lo in range(0, 70000, 10000)]
     out += [('dense-channels', lo) for lo in range(0, 65536, 8192)]
     return out
@@ -415,6 +415,16 @@ def header_cases(task, tier, seed=0):
             yield {'headers': {'blob': 'v' * n}}, n, 5
             yield {'headers': {'k': ['v' * (n // 2), bytearray(n // 2)]},
                    'app_id': 'big'}, n, 5
+    elif kind == 'lookalikes':
+        # every string property x every string a helpful library might tidy
+        # (alone, and with every other property set)
+        strs = [n for n, t, _b in SETTABLE if t == 'shortstr']
+        full = props_for_subset((1 << NSET) - 1)
+        for k, text in enumerate(A.LOOKALIKES):
+            for name in strs:
+                yield {name: text}, k, 1
+                yield dict(full, **{name: text}), k, 2
+            yield {'headers': {text: text, 'k': [text, {text: text}]}}, k, 3
     elif kind == 'dense-sizes':
         lo = task[1]
         for size in range(lo, lo + 10000):
